@@ -144,6 +144,54 @@ def t1_key_check(ck):
                    "a path returns Some(&slot.1) without the guard `slot.0 == hash` on the full, unmodified key parameter (guards on this path: %s)" % (seen or "none"),
                    "Some(&slot.1) only under slot.0 == hash")
             ck.sample({"rule": "T1", "body": b.name, "guards": seen, "returns": show(r)})
+    # second accepted form: entries.iter()[.flatten()].find(|slot| slot.key == hash).map(|slot| &slot.value)
+    rt0 = return_term(prog, find)
+    if hits == 0 and rt0 is not None and rt0[0] == "call" and rt0[1].endswith("Option::<T>::map") and len(rt0[2]) == 2 \
+            and rt0[2][0][0] == "call" and rt0[2][0][1].endswith("Iterator::find"):
+        fc = rt0[2][0]
+        pred_t, proj_t = fc[2][1], rt0[2][1]
+        pred_n = pred_t[1][len("closure:"):] if pred_t[0] == "agg" and str(pred_t[1]).startswith("closure:") else None
+        proj_n = proj_t[1][len("closure:"):] if proj_t[0] == "agg" and str(proj_t[1]).startswith("closure:") else None
+        pb, jb = (prog.body(pred_n) if pred_n else None), (prog.body(proj_n) if proj_n else None)
+        if pb is None or jb is None:
+            ck.fail("T1", "find", find.where(), "find(..).map(..) is not given two closures defined in place")
+        else:
+            ups = closure_upvar_terms(prog, find, pb.name) or []
+            key_upvars = [i for i, u in enumerate(ups) if u == ("param", 2)]
+            good_pred = False
+            seen = []
+            for p in decision_table(prog, pb):
+                r = p.ret
+                conds = [c for c, taken in p.conds if taken != 0] + ([r] if r[0] in ("bin", "call") else [])
+                truthy = r[0] in ("bin", "call") or (r[0] == "const" and r[2] not in (0, False))
+                if not truthy:
+                    continue
+                ok = False
+                for c in conds:
+                    a = b_ = None
+                    if c[0] == "bin" and c[1] == "Eq":
+                        a, b_ = c[2], c[3]
+                    elif c[0] == "call" and c[1].endswith("::eq") and len(c[2]) == 2:
+                        a, b_ = c[2]
+                    if a is None:
+                        continue
+                    seen.append(show(c))
+                    for k in key_idx:
+                        want = ("field", ("param", 2), str(k))
+                        if (a == want and any(is_upvar(b_, i) for i in key_upvars)) or (b_ == want and any(is_upvar(a, i) for i in key_upvars)):
+                            ok = True
+                good_pred = ok
+                if not ok:
+                    break
+            hits += 1
+            ck.req(good_pred, "T1", pb.name, pb.where(),
+                   "the find predicate can accept a slot without `slot.key == hash` on the full, unmodified key parameter (tests seen: %s)" % (seen or "none"),
+                   "predicate = (slot.key == hash)")
+            jr = return_term(prog, jb)
+            ck.req(jr == ("field", ("param", 2), str(val_idx)), "T1", jb.name, jb.where(),
+                   "the projection after find returns %s, which is not the value part (.%d) of the slot found" % (show(jr) if jr else "?", val_idx),
+                   "projection = &slot.value")
+            ck.sample({"rule": "T1", "form": "find+map", "predicate": seen})
     ck.floor("T1", hits, 1, "paths of TranspositionBucket::find that return a hit")
     # find itself must return what the search over its own slots yields (no other source of hits)
     rt = return_term(prog, find)
